@@ -496,12 +496,26 @@ func c11Faults(r *core.Run) (landed int64, kindsPlanned, kindsLanded map[string]
 				}
 				for _, k := range errnos {
 					for _, dur := range faultDurations {
+						// quick tier: the full errno x duration product on the
+						// fixed script (4 prior images); on the random scripts
+						// every errno once and EIO for every duration
+						if r.Quick() && !c.Fixed && dur != "once" && k != "EIO" {
+							continue
+						}
 						plan = append(plan, c11fault{Case: ci, CaseN: c.Name, Call: call.I, Op: op, Sys: e.Name, Occ: occ, Kind: k, Dur: dur})
 					}
 				}
 				if e.Name == "pread64" || e.Name == "pwrite64" {
 					for _, k := range c11ShortCounts {
 						plan = append(plan, c11fault{Case: ci, CaseN: c.Name, Call: call.I, Op: op, Sys: e.Name, Occ: occ, Kind: fmt.Sprintf("short%d", k), Dur: "once"})
+						// 2 and 3 consecutive short transfers (a continuation
+						// loop issues new syscalls: occurrences K+1, K+2); a faked
+						// 4095 cannot be repeated (the rest asked for is 1 byte)
+						if k < 4095 {
+							for _, dur := range []string{"twice", "thrice"} {
+								plan = append(plan, c11fault{Case: ci, CaseN: c.Name, Call: call.I, Op: op, Sys: e.Name, Occ: occ, Kind: fmt.Sprintf("short%d", k), Dur: dur})
+							}
+						}
 					}
 				}
 			}
@@ -524,6 +538,8 @@ func c11Faults(r *core.Run) (landed int64, kindsPlanned, kindsLanded map[string]
 	type c11judged struct {
 		call    apiCall
 		retried bool
+		imgSig  string
+		imgWhat string
 	}
 	judged := make([]*c11judged, len(plan))
 	core.Parallel(len(plan), 16, func(i int) {
@@ -535,7 +551,7 @@ func c11Faults(r *core.Run) (landed int64, kindsPlanned, kindsLanded map[string]
 		mu.Unlock()
 		inj := fmt.Sprintf("%s:error=%s:when=%s", f.Sys, f.Kind, whenSpec(f.Occ, f.Dur))
 		if k, ok := shortCount(f.Kind); ok {
-			inj = fmt.Sprintf("%s:retval=%d:when=%d", f.Sys, k, f.Occ)
+			inj = fmt.Sprintf("%s:retval=%d:when=%s", f.Sys, k, whenSpec(f.Occ, f.Dur))
 		}
 		for attempt := 0; attempt < 2; attempt++ {
 			d := mkdirFresh(base, c.Name, fmt.Sprintf("f%d-%d", i, attempt))
@@ -568,7 +584,9 @@ func c11Faults(r *core.Run) (landed int64, kindsPlanned, kindsLanded map[string]
 			if !call.Ended {
 				f.Result = "(call did not return: child ended)"
 			}
-			judged[i] = &c11judged{call, retried}
+			isig, iwhat, ichecked := c11ImageAfter(c, sr.T, img)
+			r.Count("blocks_of_the_image_compared_after_fault_runs", int64(ichecked))
+			judged[i] = &c11judged{call, retried, isig, iwhat}
 			os.RemoveAll(d)
 			break
 		}
@@ -605,6 +623,11 @@ func c11Faults(r *core.Run) (landed int64, kindsPlanned, kindsLanded map[string]
 	for _, i := range order {
 		if judged[i] != nil {
 			c11Judge(r, cases[results[i].Case], results[i], judged[i].call, judged[i].retried)
+			if judged[i].imgSig != "" {
+				f := results[i]
+				r.Violate(judged[i].imgSig, fmt.Sprintf("script %s with %s %s at occurrence %d (%s, inside %s call %d): %s", cases[f.Case].Script, f.Sys, f.Kind, f.Occ, f.Dur, f.Op, f.Call, judged[i].imgWhat),
+					map[string]interface{}{"fault": f, "script": cases[f.Case].Script, "num_blocks": cases[f.Case].N, "prior_image": cases[f.Case].Prior, "syscalls_of_the_call": excerpt(judged[i].call.Sys, 8)})
+			}
 		}
 	}
 	// samples: one per (syscall, kind) in plan order
@@ -693,15 +716,34 @@ func c11Judge(r *core.Run, c c11case, f c11fault, call apiCall, retried bool) {
 		return
 	}
 	if retried {
-		// A faked K-byte transfer moves no data, so the bytes below K are
-		// whatever the buffer (or the file) held before: only bytes from offset
-		// K on can be judged after a retry loop.
+		// A faked K-byte transfer moves no data, so the bytes of the faked
+		// ranges are whatever the buffer (or the file) held before: only the
+		// other bytes can be judged after a continuation / retry loop. What
+		// can always be judged is WHICH bytes the call asked the kernel to
+		// move: they must be the bytes of its block, all of them.
 		r.Count("faults_retried_successfully", 1)
+		judgedT, bad, faked := c11TransferRanges(call)
+		if !judgedT {
+			r.Count("short_transfer_continuations_not_judged", 1)
+			return
+		}
+		r.Count("short_transfer_continuations_judged", 1)
+		if bad != "" {
+			r.Violate(fmt.Sprintf("%s-continuation-after-short-%s-wrong-byte-range", f.Op, f.Sys),
+				fmt.Sprintf("%s reported success after %d faked %d-byte %s transfer(s), but %s", f.Op, f.Fails, k, f.Sys, bad), detail)
+			return
+		}
 		if short && f.Sys == "pread64" {
 			if lb, ok := resultField(call.Result, "lastbad"); ok && strings.Contains(call.Result, "match=") && !strings.Contains(call.Result, "match=unknown") {
 				r.Count("short_pread_retries_judged", 1)
-				if lb >= k {
-					r.Violate("short-pread-retry-wrong-data", fmt.Sprintf("%s after a pread64 that transferred %d of 4096 bytes re-read but returned a byte differing from the last value written at offset %d (>= %d): %s", f.Op, k, lb, k, call.Result), detail)
+				inFaked := lb < 0
+				for _, g := range faked {
+					if int64(lb) >= g[0] && int64(lb) < g[1] {
+						inFaked = true
+					}
+				}
+				if !inFaked {
+					r.Violate("short-pread-retry-wrong-data", fmt.Sprintf("%s after %d pread64 call(s) that transferred %d bytes each re-read but returned a byte differing from the last value written at offset %d, outside the faked ranges %v: %s", f.Op, f.Fails, k, lb, faked, call.Result), detail)
 				}
 			}
 		}
@@ -728,7 +770,7 @@ func runC11(r *core.Run) (bool, string) {
 		"(file pre-filled with a non-zero pattern; after NewFileDisk(path,n): os.Stat length == n*4096, Size()==n, every block read through ReadTo into a buffer pre-filled with the complement of the expectation equals retained-prefix-then-zeros); " +
 		"seeded random write/read/barrier histories with Close + NewFileDisk(path,n') at random points, n' in {n,n+1,n-1,0,2n}, same verification after every reopen (sampled, not exhaustive). " +
 		"(b) faults under strace: the child runs a script (fixed script open,W,W,Barrier,Read,ReadTo,Barrier,Close over prior images absent/larger/exact/smaller, plus seeded random scripts), every API call between BEGIN i/END i marker writes; " +
-		"a recording run yields the per-thread occurrence index of EVERY pwrite64/pread64/fsync/fdatasync/ftruncate inside the markers and each is injected with EIO, ENOSPC, EINTR (exhaustive for the scripts run) and, for pread64/pwrite64, with a faked transfer of 0, 1, 100 and 4095 bytes (the syscall is not executed: the kernel moves no data); " +
+		"a recording run yields the per-thread occurrence index of EVERY pwrite64/pread64/fsync/fdatasync/ftruncate inside the markers and each is injected with EIO, ENOSPC, EINTR (exhaustive for the scripts run) and, for pread64/pwrite64, with a faked transfer of 0, 1, 100 and 4095 bytes (the syscall is not executed: the kernel moves no data), once and (0, 1, 100) for 2 and 3 consecutive occurrences; a call that continues after short transfers and reports ok must have asked only for bytes of its own block and the ranges transferred must cover the block (from the offset/count/return value of every pread64/pwrite64 of the call), and a re-read block may differ from the last value written only inside the faked ranges; after EVERY injected run the image file is compared block by block with the last value written by a Write that reported ok without an injected syscall (blocks of faulted Writes are not judged): a Write must not change another block nor extend the image beyond the disk; " +
 		"fault duration: each errno fault fails exactly the K-th occurrence of the syscall, occurrences K..K+1, K..K+2, or every occurrence from K on (EAGAIN additionally on pread64/pwrite64); " +
 		"an injected run counts only if its own log shows (INJECTED) lines only on the main thread and only of the planned syscall, the first of them inside the planned markers (else retried once, then inconclusive); " +
 		"when the call re-issued the failed syscall and that succeeded: fsync/fdatasync failed with EIO/ENOSPC -> violation (a failed flush may have dropped the dirty state, the later success proves nothing), with EINTR -> inconclusive; pwrite64 failed with EIO/ENOSPC -> violation, with EINTR/EAGAIN -> allowed (restartable without loss); pread64 re-read returning wrong data -> violation, correct data after EINTR/EAGAIN -> allowed, after EIO/ENOSPC -> inconclusive; ftruncate -> not judged here. " +
